@@ -643,11 +643,17 @@ def evaluate__range_expression(self: XPathToken, context: ta.ContextType = None)
         return xlist(range(start, stop + 1))
     except TypeError:
         return []
+    except (OverflowError, MemoryError):
+        raise self.error('FOAR0002', 'the range is too large to be materialized') from None
 
 
 @method('to')
 def select__range_expression(self: XPathToken, context: ta.ContextType = None) -> Iterator[int]:
-    yield from cast(list[int] | list[NoReturn], self.evaluate(context))
+    start, stop = self.get_operands(context, cls=Integer)
+    try:
+        yield from range(start, stop + 1)  # lazy: a large range can be consumed partially
+    except TypeError:
+        return
 
 
 ###
